@@ -244,6 +244,86 @@ def run_leg_sharded(pid, leg, build_, binpath, seed, tier, outdir):
     return res
 
 
+
+def run_leg_tool(pid, leg, build_, binpath, seed, tier, outdir):
+    """supplementary sanitizer legs: valgrind memcheck / ASan build / Miri over sharded workloads.
+    A tool report is a violation; a tool that cannot be run is recorded as 'not run' and does not
+    affect the verdict."""
+    res = LegResult(leg["name"])
+    tool = leg["tool"]
+    shards = leg.get("shards", 16)
+    of = leg.get("of", shards)
+    timeout = leg.get("timeout", {}).get(tier, 3600)
+    notes = []
+    asan_bin = None
+    if tool == "asan":
+        tdir = os.path.join(TARGET, "asan")
+        env = cargo_env()
+        env["RUSTFLAGS"] = "-Zsanitizer=address -Cforce-frame-pointers=yes"
+        env["RUSTUP_TOOLCHAIN"] = "nightly"
+        cmd = ["cargo", "build", "--release", "--offline", "-p", "hfull", "--features", ",".join(build_),
+               "--target", "x86_64-unknown-linux-gnu", "--target-dir", tdir]
+        r = subprocess.run(cmd, cwd=HARNESS, env=env, capture_output=True, text=True)
+        if r.returncode != 0:
+            res.reports.append({"evaluations": 0, "counters": {f"{tool}.not_run": 1}, "notes": [f"{tool} leg not run: build failed: {r.stderr[-300:]}"], "_build": "-".join(build_)})
+            return res
+        asan_bin = os.path.join(tdir, "x86_64-unknown-linux-gnu", "release", "hfull")
+
+    def one(shard):
+        tag = f"{leg['name']}-{'-'.join(build_)}-s{shard}"
+        out = os.path.join(outdir, f"{tag}.json")
+        if os.path.exists(out):
+            os.remove(out)
+        args = [leg["cmd"], "--seed", str(seed), "--tier", "quick", "--out", out, "--shard", str(shard), "--nshards", str(of),
+                "--as_limit_gb", "0", "--repo", "/repo"] + [str(a) for a in leg.get("args", [])]
+        env = dict(os.environ)
+        env["VERIF_THREADS"] = "1"
+        cwd = None
+        if tool == "valgrind":
+            cmd = ["valgrind", "-q", "--error-exitcode=9", "--leak-check=no", binpath] + args
+        elif tool == "asan":
+            env["ASAN_OPTIONS"] = "halt_on_error=1:abort_on_error=0:detect_leaks=0:exitcode=9"
+            cmd = [asan_bin] + args
+        elif tool == "miri":
+            env.update(cargo_env())
+            env["RUSTUP_TOOLCHAIN"] = "nightly"
+            env["MIRIFLAGS"] = "-Zmiri-disable-isolation"
+            cwd = HARNESS
+            cmd = ["cargo", "miri", "run", "--offline", "-p", "hcomp", "--features", ",".join(build_), "--target-dir", os.path.join(TARGET, "miri"), "--"] + args
+        else:
+            return None, f"unknown tool {tool}", None
+        rc, o, e = run_proc(cmd, timeout, env=env, cwd=cwd)
+        rep = None
+        if os.path.exists(out):
+            try:
+                with open(out) as f:
+                    rep = json.load(f)
+            except Exception:
+                rep = None
+        return rc, e, rep
+
+    with ThreadPoolExecutor(shards) as ex:
+        for shard, (rc, err, rep) in enumerate(ex.map(one, range(shards))):
+            tagb = "-".join(build_)
+            if rep is not None:
+                rep["_leg"], rep["_build"], rep["_cmd"] = leg["name"], tagb, f"{tool} {leg['cmd']} shard {shard}/{of}"
+                rep.setdefault("counters", {})[f"{tool}.processes_clean" if rc == 0 else f"{tool}.processes_with_report"] = 1
+                res.reports.append(rep)
+            report_markers = {"valgrind": ("Invalid ", "uninitialised", "Mismatched", "overlap"), "asan": ("ERROR: AddressSanitizer",), "miri": ("Undefined Behavior", "data race")}
+            if rc is None:
+                res.reports.append({"evaluations": 0, "counters": {f"{tool}.watchdog": 1}, "notes": [f"{tool} shard {shard}: wall-clock watchdog fired (not a verdict)"], "_build": tagb})
+            elif rc != 0 and (rc == 9 or tool == "miri") and any(m in (err or "") for m in report_markers.get(tool, ())):
+                first = ""
+                for line in (err or "").splitlines():
+                    if "swiftness" in line or "/repo/" in line or "Undefined Behavior" in line or "AddressSanitizer" in line:
+                        first = re.sub(r"0x[0-9a-fA-F]+", "0x#", line.strip())[:160]
+                        break
+                res.extra_violations.append({"case_index": shard, "case": f"{tool} report: {first}", "case_class": f"{tool}|{first}", "rc": rc, "stderr": (err or "")[-1500:], "cmd": f"{tool} {leg['cmd']} shard {shard}", "build": tagb})
+            elif rc != 0 and rep is None:
+                res.reports.append({"evaluations": 0, "counters": {f"{tool}.not_run": 1}, "notes": [f"{tool} shard {shard} not run (exit {rc}): {(err or '')[-200:]}"], "_build": tagb})
+    return res
+
+
 def crash_signature(c):
     err = c["stderr"]
     if "VERIF_CPU_BUDGET_EXCEEDED" in err:
@@ -395,8 +475,8 @@ def run_check(pid, tier, seed):
     # run legs; simple legs of different builds in parallel when cheap
     for l in legs:
         jobs = [(l, tuple(b)) for b in l["builds"][tier]]
-        runner = run_leg_sharded if l.get("sharded") else run_leg_simple
-        par = 1 if (l.get("sharded") or l.get("serial")) else min(len(jobs), 4)
+        runner = run_leg_tool if l.get("tool") else (run_leg_sharded if l.get("sharded") else run_leg_simple)
+        par = 1 if (l.get("sharded") or l.get("serial") or l.get("tool")) else min(len(jobs), 4)
         merged = LegResult(l["name"])
         with ThreadPoolExecutor(par) as ex:
             futs = [ex.submit(runner, pid, l, b, built[(l["kind"], b)], seed, tier, outdir) for (l, b) in jobs]
